@@ -340,7 +340,7 @@ func simplifyDeref(addr string) string {
 }
 
 func (w *Walker) canonD(st *wstate, fr *frame, v ssa.Value, d int) string {
-	if d > 14 {
+	if d > 48 {
 		return "…"
 	}
 	if s, ok := fr.env[v]; ok {
